@@ -263,12 +263,26 @@ func main() {
 		}
 	}
 
+	t0 := time.Now()
+	lap := func(what string) {
+		if os.Getenv("C09_DEBUG") != "" {
+			fmt.Fprintf(os.Stderr, "%s: %v\n", what, time.Since(t0))
+		}
+		t0 = time.Now()
+	}
+	lap("grids")
 	objStreamLimit(r)
+	lap("objStreamLimit")
 	rowGuard(r)
+	lap("rowGuard")
 	rowBombs(r)
+	lap("rowBombs")
 	bombs(r)
+	lap("bombs")
 	readerBomb(r)
+	lap("readerBomb")
 	structureBombs(r)
+	lap("structureBombs")
 }
 
 // objStreamLimit: K on the decode limit stored by model.ObjectStreamDictWithLimits and on the lazy full
@@ -708,7 +722,7 @@ func structureBombs(r *vh.Run) {
 	// "none" runs first: its allocation under each limit is the baseline for "was the bomb materialised?"
 	bombsL := []bomb{{"none", 0, 0}, {"objstm", big, 0}, {"xrefstm", 0, big}, {"objstm", 200 << 10, 0}, {"xrefstm", 0, 200 << 10},
 		// predictor ROW bombs in an object stream reached through type-2 xref entries: objPad = /Columns
-		{"objstm-row-12", 64 << 20, 0}, {"objstm-row-12", 1<<20 - 1, 0}, {"objstm-row-12", 1 << 20, 0}, {"objstm-row-15", 8 << 20, 0}, {"objstm-row-2", 64 << 20, 0}}
+		{"objstm-row-12", 64 << 20, 0}, {"objstm-row-12", 1<<20 - 1, 0}, {"objstm-row-12", 1 << 20, 0}, {"objstm-row-15", 8 << 20, 0}, {"objstm-row-2", r.Pick(8, 64) << 20, 0}}
 	base := map[int64]int64{}
 	limits := []int64{16 << 10, 64 << 10, 1 << 20, 512 << 20}
 	for _, bm := range bombsL {
@@ -725,6 +739,9 @@ func structureBombs(r *vh.Run) {
 		}
 		decoded := int64(bm.objPad + bm.xrefPad)
 		for _, lim := range limits {
+			if rowBomb && !r.Thorough() && (lim == 16<<10 || lim == 512<<20) {
+				continue // quick tier: row bombs under 64 KiB and 1 MiB only
+			}
 			in := map[string]any{"bomb": bm.name, "decoded_bytes": decoded, "file_bytes": len(doc), "MaxDecodeBytes": lim, "file": path,
 				"op": "api.ReadValidateAndOptimize in a child process"}
 			cmd := exec.Command(exe)
